@@ -39,8 +39,8 @@ type spec struct {
 	BigCatalog bool `json:",omitempty"`
 }
 
-var writeKinds = []string{"insert", "insert", "update", "delete", "bulk", "bulk-big", "create-table", "drop-table", "create-index", "drop-index", "alter", "vacuum", "incr-vacuum", "delete-all", "update-grow", "vacuum-pagesize", "open-mid-transaction", "open-mid-transaction", "refused-read", "refused-read", "short-tail", "short-tail"}
-var readKinds = []string{"select", "select", "indexed", "rowid", "columns", "low-scan", "low-tables", "low-schema", "low-all", "repeat", "pk", "prepared", "select-in-lo-txn", "indexed-in-lo-txn", "low-all-in-hi-txn", "select-while-writer-open", "rowid-while-writer-open"}
+var writeKinds = []string{"insert", "insert", "update", "delete", "bulk", "bulk-big", "create-table", "drop-table", "create-index", "drop-index", "alter", "vacuum", "incr-vacuum", "delete-all", "update-grow", "vacuum-pagesize", "open-mid-transaction", "open-mid-transaction", "refused-read", "refused-read", "short-tail", "short-tail", "redefine-index", "redefine-index"}
+var readKinds = []string{"select", "select", "indexed", "rowid", "columns", "low-scan", "low-tables", "low-schema", "low-all", "repeat", "pk", "prepared", "select-in-lo-txn", "indexed-in-lo-txn", "low-all-in-hi-txn", "select-while-writer-open", "rowid-while-writer-open", "indexed-eq", "indexed-eq"}
 
 func TestC08History(t *testing.T) {
 	vt.Exec(t, vt.Check[spec]{
@@ -75,6 +75,7 @@ type tableModel struct {
 	name    string
 	kind    int // 0: (a INTEGER PRIMARY KEY, b, c TEXT), 1: (x, y), 2: (k TEXT PRIMARY KEY, v) WITHOUT ROWID
 	indexes []string
+	idxDef  map[string]string // index name -> what follows the column in its definition ("", "DESC", "COLLATE NOCASE")
 	cols    []string
 	added   int
 }
@@ -398,6 +399,34 @@ func run(r *vt.Run, t vt.TB, s spec) {
 				history = append(history, "create-index:"+name)
 				note("ddl")
 			}
+		case "redefine-index":
+			// an index dropped and made again under its old name with another
+			// direction or collation, in one transaction: a handle that knows
+			// the old definition finds a new b-tree under the same name
+			if tm == nil || len(tm.indexes) == 0 {
+				continue
+			}
+			{
+				name := tm.indexes[o.B%len(tm.indexes)]
+				def := []string{"DESC", "COLLATE NOCASE", ""}[o.B/7%3]
+				if tm.idxDef[name] == def {
+					def = "DESC"
+					if tm.idxDef[name] == "DESC" {
+						def = ""
+					}
+				}
+				col := tm.baseCols()[1]
+				stmts := []oracle.Stmt{{SQL: "BEGIN"}, {SQL: "DROP INDEX " + name}, {SQL: fmt.Sprintf("CREATE INDEX %s ON %s (%s %s)", name, tm.name, col, def)}, {SQL: "COMMIT"}}
+				res, err := env.O.Script("w", stmts, true)
+				sqdb.MustOK(r, t, "redefine index", res, err, len(stmts))
+				if tm.idxDef == nil {
+					tm.idxDef = map[string]string{}
+				}
+				tm.idxDef[name] = def
+				history = append(history, fmt.Sprintf("redefine-index:%s(%s)", name, def))
+				note("ddl")
+				classes["index-redefined-under-its-name"] = true
+			}
 		case "drop-index":
 			if tm == nil || len(tm.indexes) == 0 {
 				continue
@@ -571,7 +600,7 @@ func run(r *vt.Run, t vt.TB, s spec) {
 			}
 
 		// ---------------- reads on the long-lived handles
-		case "select", "indexed", "rowid", "columns", "pk", "prepared", "select-in-lo-txn", "indexed-in-lo-txn", "select-while-writer-open", "rowid-while-writer-open":
+		case "select", "indexed", "indexed-eq", "rowid", "columns", "pk", "prepared", "select-in-lo-txn", "indexed-in-lo-txn", "select-while-writer-open", "rowid-while-writer-open":
 			if tm == nil {
 				continue
 			}
@@ -678,11 +707,38 @@ func run(r *vt.Run, t vt.TB, s spec) {
 						return "", true
 					}
 					ix := tmc.indexes[b%len(tmc.indexes)]
-					ob := tmc.baseCols()[1] + ", " + tmc.orderBy()
+					ob := tmc.baseCols()[1] + " " + tmc.idxDef[ix] + ", " + tmc.orderBy()
 					want := query(fmt.Sprintf("SELECT %s FROM %s ORDER BY %s", sel, tmc.name, ob))
 					var got [][]interface{}
 					err := hi.IndexedSelect(tmc.name, ix, func(row sqlittle.Row) { got = append(got, append([]interface{}{}, row...)) }, cols...)
 					return fmt.Sprint(got), cmpRows("IndexedSelect("+tmc.name+","+ix+")", got, err, want)
+				case "indexed-eq":
+					// equality through an index, under the collation the index
+					// has now
+					if len(tmc.indexes) == 0 {
+						return "", true
+					}
+					{
+						ix := tmc.indexes[b%len(tmc.indexes)]
+						col := tmc.baseCols()[1]
+						vs := query(fmt.Sprintf("SELECT %s FROM %s WHERE %s IS NOT NULL ORDER BY %s LIMIT 1 OFFSET %d", col, tmc.name, col, tmc.orderBy(), b%40))
+						if len(vs) != 1 {
+							return "", true
+						}
+						key := vs[0][0]
+						if key.T == 't' && b%2 == 0 {
+							key = val.Text(strings.ToUpper(string(key.B))) // (the same text to a NOCASE index only)
+						}
+						coll := "BINARY"
+						if tmc.idxDef[ix] == "COLLATE NOCASE" {
+							coll = "NOCASE"
+						}
+						ob := col + " " + tmc.idxDef[ix] + ", " + tmc.orderBy()
+						want := query(fmt.Sprintf("SELECT %s FROM %s WHERE +%s = ?1 COLLATE %s AND typeof(%s) = typeof(?1) ORDER BY %s", sel, tmc.name, col, coll, col, ob), key)
+						var got [][]interface{}
+						err := hi.IndexedSelectEq(tmc.name, ix, sqlittle.Key{key.Go()}, func(row sqlittle.Row) { got = append(got, append([]interface{}{}, row...)) }, cols...)
+						return fmt.Sprint(got), cmpRows(fmt.Sprintf("IndexedSelectEq(%s,%s [%s],%s)", tmc.name, ix, tmc.idxDef[ix], key), got, err, want)
+					}
 				case "rowid":
 					if tmc.kind == 2 {
 						return "", true
